@@ -30,6 +30,17 @@ CLAIMED['C18'] = ('E4 totality',
     'deterministic hub-access budget catches hangs. Exhaustive for 16-bit words per (config, IT position); sampled for 32-bit words.',
     'Trusted: the list of documented not-implemented sites (DESIGN.md appendix A.7); states are valid per section 3.2 rule 5.', 'DESIGN.md section 5 C18')
 
+for _p, _t in (('C06', 'ARM'), ('C07', 'Thumb')):
+    CLAIMED[_p] = ('E2 decodediff',
+        'concolic path enumeration as a generator + differential testing against reference encoding tables',
+        _t + ' class selection is decided for every word: all paths of the armulator decoder are enumerated jointly with a reference encoding '
+        'table written from the manual, giving a finite partition into regions on which both are constant; the witness and solver-generated '
+        'members of every region are executed and must be compatible (right class / undefined / not-implemented), random words are compared '
+        'directly as an independent backstop' + (', all 65 536 16-bit halfwords are brute-forced and the 16/32-bit length rule is checked over every first halfword' if _p == 'C07' else '') +
+        '. Operands of defined rows are compared with the reference operand decode on region members (sampled).',
+        'Trusted: vf/ref/enc_*.py tables and the operand formulae of vf/ref/sem.py; the path tracer is validated every run by requiring each region to be constant on its members.',
+        'DESIGN.md section 3.4 and 5 C06/C07')
+
 NOT_YET = {}
 
 
@@ -67,6 +78,7 @@ def main():
         },
         'engines': [
             {'name': 'E1 stepdiff', 'path': 'vf/props', 'serves_properties': [], 'kind_free_text': 'differential stepping of emulate_cycle against the reference model vf/ref'},
+            {'name': 'E2 decodediff', 'path': 'vf/props/decode_check.py', 'serves_properties': ['C06', 'C07'], 'kind_free_text': 'joint path enumeration of decoders and reference encoding tables'},
             {'name': 'E3 unitdiff', 'path': 'vf/props/c17.py', 'serves_properties': ['C17'], 'kind_free_text': 'direct calls of helpers against independent re-implementations'},
             {'name': 'E4 totality', 'path': 'vf/props/c18.py', 'serves_properties': ['C18'], 'kind_free_text': 'validity-predicate fuzzing of emulate_cycle'},
             {'name': 'E5 stateful', 'path': 'vf/props/c16.py', 'serves_properties': ['C16'], 'kind_free_text': 'Hypothesis rule-based state machines against in-memory models'},
